@@ -155,7 +155,8 @@ pub fn alphabet(root_uid: bool) -> Vec<Op> {
     // data shapes: both backends must store and split the same bytes (empty data over existing content,
     // bare and doubled carriage returns, missing final newline, empty lines and embedded terminators in line lists)
     for p in ["/a", "/a/ab"] {
-        for d in [&b""[..], &b"a\r\r\nb\r"[..], &b"x\n\ny"[..], &b"0123456789\n"[..]] {
+        // (the last one is not valid UTF-8: the text readers refuse it on both backends)
+        for d in [&b""[..], &b"a\r\r\nb\r"[..], &b"x\n\ny"[..], &b"0123456789\n"[..], &b"ab\x80cd\xe2\x82"[..]] {
             ops.push(Op::WriteAll(s(p), d.to_vec()));
             ops.push(Op::AppendAll(s(p), d.to_vec()));
         }
